@@ -957,6 +957,19 @@ def rule_bytes(ctx: Ctx) -> RuleReport:
         rep.ok({"meta_charset_sniffer": "comments removed from the sniffed head"})
     else:
         rep.fail(Finding("C02-BYTES", X + "html_extractor.py", rh2.qual, "charset sniffed inside comments: " + anorm(sn[0], rh2.node), f"`{short(sn[0], 60)}` searches the raw head of the page: a <meta charset> that is commented out is found as well and the whole document is decoded with it (an ASCII page with '<!-- <meta charset=\"utf-16\"> -->' becomes CJK garbage)", line=sn[0].lineno))
+    # (j) RTF: every control word that ends a stretch of text becomes white space (RTF 1.9.1: \\par \\line \\tab \\cell \\row \\sect)
+    rp = ctx.p.cls(RTF, "_RtfParser")
+    tab = None
+    for st in rp.node.body:
+        if isinstance(st, ast.Assign) and any(isinstance(t, ast.Name) and t.id == "SPECIAL_CHARS" for t in st.targets):
+            tab = ctx.folder.fold(rp.module, st.value)
+    if not isinstance(tab, dict):
+        raise AnalysisError("C02-BYTES: _RtfParser.SPECIAL_CHARS is no longer a constant table")
+    for kw in ("par", "line", "tab", "cell", "row", "sect"):
+        if isinstance(tab.get(kw), str) and tab[kw] and tab[kw].isspace():
+            rep.ok({"rtf_separator": kw, "becomes": repr(tab[kw])})
+        else:
+            rep.fail(Finding("C02-BYTES", RTF, "_RtfParser.SPECIAL_CHARS", f"\\{kw} -> {tab.get(kw)!r}", f"the RTF control word \\{kw} ends a stretch of text (paragraph, line, table cell or row) but is not turned into white space: the pieces on both sides are glued into one token that is not in the document ('AAA\\cell BBB' -> 'AAABBB')"))
     # (c) plain text: the detector judges the whole input; the text is what the detector decoded; lossy decoding only after it failed
     dd = ctx.p.func(PLAIN, "_detect_and_decode")
     rep.unit(dd.key)
